@@ -551,7 +551,60 @@ func handedBytesVerify(format string, envBytes, handed []byte, chain []*x509.Cer
 	return coseVerifyOracle(pub, handed, m.Signature)
 }
 
+// genLocalSigner: NewLocalSigner(certs, key) over every kind of leaf key x every kind of private key
+func genLocalSigner(r *Runner) {
+	leafKeys := []string{"ec256-0", "ec384-0", "ec521-0", "rsa2048-0", "rsa3072-0", "rsa4096-0", "rsa1024-0", "rsa2056-0", "rsa2560-0", "rsa3200-0", "rsa5120-0", "ec224-0", "ed-0"}
+	idx := 0
+	for _, lk := range leafKeys {
+		for n := 0; n <= 3; n++ {
+			var chain []*x509.Certificate
+			if n > 0 {
+				chain = getIdentity(lk, n).chain
+			}
+			privs := []string{lk, "ec256-1", "ec384-1", "rsa2048-1", "rsa3072-1", "ed-7", "ec224-1", "rsa1024-1"}
+			for _, pk := range privs {
+				if n == 0 && pk != lk {
+					continue
+				}
+				key := getKey(pk).Priv
+				matches := n > 0 && publicKeysEqual(chain[0].PublicKey, key.Public())
+				impl := map[string]any{}
+				func() {
+					defer func() {
+						if p := recover(); p != nil {
+							impl["ok"] = false
+							impl["panic"] = fmt.Sprint(p)
+						}
+					}()
+					s, err := signature.NewLocalSigner(chain, key)
+					if err != nil {
+						impl["ok"] = false
+						impl["_error"] = err.Error()
+						return
+					}
+					impl["ok"] = true
+					ks, kerr := s.KeySpec()
+					if kerr == nil {
+						impl["keySpec"] = map[string]any{"type": int(ks.Type), "size": ks.Size}
+					}
+				}()
+				certs := []any{}
+				if n > 0 {
+					certs = absChain(chain)["certs"].([]any)
+				}
+				idx++
+				r.Submit(&Case{ID: fmt.Sprintf("localsigner-%d", idx), K: "localsigner", Class: "localsigner/leaf:" + strings.SplitN(lk, "-", 2)[0],
+					In:   map[string]any{"certs": certs, "keyMatchesLeaf": matches},
+					Impl: impl, Replay: map[string]any{"leaf_key": lk, "private_key": pk, "chain_len": n}})
+			}
+		}
+	}
+}
+
 func genSign(r *Runner, prop string) {
+	if prop == "C16" || prop == "SIGN" {
+		genLocalSigner(r)
+	}
 	quick := tier() == "quick"
 	rng := newRand(int64(len(prop)) + 300)
 	now := baseTime().Add(-time.Minute)
